@@ -353,3 +353,219 @@ Proof.
   intros X Hp Hn. destruct (single_column_end_to_end X Hp Hn) as (minpos & st & H1 & H2 & H3).
   exists minpos, st. split; [exact H1|]. split; [exact copysignR_spec|]. split; [exact H2|exact H3].
 Qed.
+
+(* ============================== ROUNDING (binary64) ============================== *)
+(* The same generic definitions instantiated at FOps (Coq primitive floats = IEEE binary64) are what the
+   per-run correspondence executes against the Rust code bit for bit.  Fitting goes through SVD / EVD and
+   has no rounding theorem; TRANSFORM is straight-line (C14/ProofsFloat.v):
+       SVD:  t_ic = fl(sum_j x_ij C_jc)                        (x.matmul(components))
+       PCA:  t_ic = fl( fl(sum_j x_ij P_jc) - pmu_c )           (x.matmul(projection), then -= pmu[c]:
+             the code does not centre x, it subtracts the projected mean stored at fit time)
+   Vocabulary (Base/FloatError.v): FR x = real value of a float, ffin x = finite, u64 = 2^-53,
+   eta64 = 2^-1075; RM m = the matrix of real values (C03/ProofsFloat.v), RSt st = the fitted state of
+   real values.  The only no-overflow hypothesis is that the entry in question is finite (then every
+   operand that entered it is finite).  Bounds are relative to the sum of magnitudes (cancellation). *)
+From Coq Require Import ZArith Floats.
+From SC Require Base.FloatError C03.ProofsFloat C03.ProofsFloat2 C14.ProofsFloat.
+
+(* truncated SVD: every finite entry (i,c) of the binary64 transform: the matmul-entry bound of C03 *)
+Theorem C14_tsvd_transform_float_error : forall (C X Tm : C03.Model.dm PrimFloat.float) (i c : nat),
+  C14.Model.tsvd_transform FOps C X = Some Tm -> (i < C03.Model.nrows X)%nat -> (c < C03.Model.ncols C)%nat ->
+  FloatError.ffin (C03.Model.get FOps Tm i c) ->
+  let p := C03.Model.ncols X in
+  let t := fun j => FloatError.FR (C03.Model.get FOps X i j) * FloatError.FR (C03.Model.get FOps C j c) in
+  (forall j, (j < p)%nat -> FloatError.ffin (C03.Model.get FOps X i j) /\ FloatError.ffin (C03.Model.get FOps C j c)) /\
+  (exists TR, C14.Model.tsvd_transform ROps (C03.ProofsFloat.RM C) (C03.ProofsFloat.RM X) = Some TR /\
+              C03.Model.get ROps TR i c = FloatError.Rsuml (map t (seq 0 p))) /\
+  Rabs (FloatError.FR (C03.Model.get FOps Tm i c) - FloatError.Rsuml (map t (seq 0 p))) <=
+    ((1 + FloatError.u64) ^ p - 1) * (FloatError.Rsumabs (map t (seq 0 p)) + INR p * FloatError.eta64)
+    + INR p * FloatError.eta64.
+Proof. exact C14.ProofsFloat.tsvd_transform_float_error. Qed.
+
+(* PCA, in the model's (= the code's) expression order: product first, then one subtraction of the stored
+   projected mean pmu_c (one more rounding; a difference of two floats cannot underflow inexactly).
+   S = sum_j x_ij P_jc, A = sum_j |x_ij P_jc| on the real values of the floats; the exact value S - pmu_c is
+   what the SAME model computes over the reals on the real values of the same state and input. *)
+Theorem C14_pca_transform_float_error : forall (st : C14.Model.pca_st PrimFloat.float)
+    (X Tm : C03.Model.dm PrimFloat.float) (i c : nat),
+  C14.Model.pca_transform FOps st X = Some Tm -> (i < C03.Model.nrows X)%nat ->
+  (c < C03.Model.ncols (C14.Model.p_projection st))%nat ->
+  FloatError.ffin (C03.Model.get FOps Tm i c) ->
+  let p := C03.Model.ncols X in
+  let Pm := C14.Model.p_projection st in
+  let m := FloatError.FR (nth c (C14.Model.p_pmu st) 0%float) in
+  let t := fun j => FloatError.FR (C03.Model.get FOps X i j) * FloatError.FR (C03.Model.get FOps Pm j c) in
+  let S := FloatError.Rsuml (map t (seq 0 p)) in
+  let A := FloatError.Rsumabs (map t (seq 0 p)) in
+  (forall j, (j < p)%nat -> FloatError.ffin (C03.Model.get FOps X i j) /\ FloatError.ffin (C03.Model.get FOps Pm j c)) /\
+  FloatError.ffin (nth c (C14.Model.p_pmu st) 0%float) /\
+  (exists TR, C14.Model.pca_transform ROps (C14.ProofsFloat.RSt st) (C03.ProofsFloat.RM X) = Some TR /\
+              C03.Model.get ROps TR i c = S - m) /\
+  Rabs (FloatError.FR (C03.Model.get FOps Tm i c) - (S - m)) <=
+    FloatError.u64 * Rabs (S - m)
+    + (1 + FloatError.u64) * (((1 + FloatError.u64) ^ p - 1) * (A + INR p * FloatError.eta64) + INR p * FloatError.eta64) /\
+  Rabs (FloatError.FR (C03.Model.get FOps Tm i c) - (S - m)) <=
+    ((1 + FloatError.u64) ^ (p + 1) - 1) * (A + INR p * FloatError.eta64) + INR p * FloatError.eta64
+    + FloatError.u64 * Rabs m.
+Proof. exact C14.ProofsFloat.pca_transform_float_error. Qed.
+
+(* the projected mean stored by the model of fit run at binary64 (for EVERY svd / evd function: nothing is
+   claimed about the factorisation): pmu_c = fl(sum_j P_jc mu_j) on the stored projection and mu *)
+Theorem C14_pca_pmu_float_error : forall (svd evd : C14.Model.fact) (data : C03.Model.dm PrimFloat.float)
+    (k : nat) (corr : bool) (st : C14.Model.pca_st PrimFloat.float) (c : nat),
+  C14.Model.pca_fit FOps svd evd data k corr = Some st -> (c < k)%nat ->
+  FloatError.ffin (nth c (C14.Model.p_pmu st) 0%float) ->
+  let p := C03.Model.ncols data in
+  let Pm := C14.Model.p_projection st in
+  let w := fun j => FloatError.FR (C03.Model.get FOps Pm j c) * FloatError.FR (nth j (C14.Model.p_mu st) 0%float) in
+  (forall j, (j < p)%nat -> FloatError.ffin (C03.Model.get FOps Pm j c) /\
+                            FloatError.ffin (nth j (C14.Model.p_mu st) 0%float)) /\
+  Rabs (FloatError.FR (nth c (C14.Model.p_pmu st) 0%float) - FloatError.Rsuml (map w (seq 0 p))) <=
+    ((1 + FloatError.u64) ^ p - 1) * (FloatError.Rsumabs (map w (seq 0 p)) + INR p * FloatError.eta64)
+    + INR p * FloatError.eta64.
+Proof. exact C14.ProofsFloat.pca_pmu_float_error. Qed.
+
+(* fit then transform, both at binary64: every finite score against the affine form sum_j (x_ij - mu_j) P_jc
+   on the real values of the stored mean and projection; A = sum_j |x_ij P_jc|, B = sum_j |P_jc mu_j| *)
+Theorem C14_pca_transform_affine_float_error : forall (svd evd : C14.Model.fact)
+    (data : C03.Model.dm PrimFloat.float) (k : nat) (corr : bool) (st : C14.Model.pca_st PrimFloat.float)
+    (X Tm : C03.Model.dm PrimFloat.float) (i c : nat),
+  C14.Model.pca_fit FOps svd evd data k corr = Some st ->
+  C14.Model.pca_transform FOps st X = Some Tm -> (i < C03.Model.nrows X)%nat -> (c < k)%nat ->
+  FloatError.ffin (C03.Model.get FOps Tm i c) ->
+  let p := C03.Model.ncols X in
+  let Pm := C14.Model.p_projection st in
+  let mu := fun j => FloatError.FR (nth j (C14.Model.p_mu st) 0%float) in
+  let x := fun j => FloatError.FR (C03.Model.get FOps X i j) in
+  let A := FloatError.Rsumabs (map (fun j => x j * FloatError.FR (C03.Model.get FOps Pm j c)) (seq 0 p)) in
+  let B := FloatError.Rsumabs (map (fun j => FloatError.FR (C03.Model.get FOps Pm j c) * mu j) (seq 0 p)) in
+  p = C03.Model.ncols data /\
+  (forall j, (j < p)%nat -> FloatError.ffin (C03.Model.get FOps X i j) /\ FloatError.ffin (C03.Model.get FOps Pm j c) /\
+                            FloatError.ffin (nth j (C14.Model.p_mu st) 0%float)) /\
+  Rabs (FloatError.FR (C03.Model.get FOps Tm i c)
+        - FloatError.Rsuml (map (fun j => (x j - mu j) * FloatError.FR (C03.Model.get FOps Pm j c)) (seq 0 p))) <=
+    ((1 + FloatError.u64) ^ (p + 1) - 1) * (A + B + 2 * INR p * FloatError.eta64) + 2 * INR p * FloatError.eta64.
+Proof. exact C14.ProofsFloat.pca_transform_affine_float_error. Qed.
+
+(* Row independence at binary64, BIT FOR BIT (Leibniz equality of matrices of primitive floats; Coq's floats
+   have a single NaN): the transform of a stack of rows is the stack of the transforms.  No rounding argument:
+   it is structural and holds for every fitted state / components matrix whatsoever. *)
+Theorem C14_transform_row_independent_float :
+  (forall (st : C14.Model.pca_st PrimFloat.float) (A B AB TA TB : C03.Model.dm PrimFloat.float),
+     C03.Model.v_stack FOps A B = Some AB ->
+     C14.Model.pca_transform FOps st A = Some TA -> C14.Model.pca_transform FOps st B = Some TB ->
+     exists TAB, C14.Model.pca_transform FOps st AB = Some TAB /\ C03.Model.v_stack FOps TA TB = Some TAB) /\
+  (forall (C A B AB TA TB : C03.Model.dm PrimFloat.float),
+     C03.Model.v_stack FOps A B = Some AB ->
+     C14.Model.tsvd_transform FOps C A = Some TA -> C14.Model.tsvd_transform FOps C B = Some TB ->
+     exists TAB, C14.Model.tsvd_transform FOps C AB = Some TAB /\ C03.Model.v_stack FOps TA TB = Some TAB).
+Proof.
+  split; [exact (C14.ProofsFloat.pca_transform_stack_gen FOps) | exact (C14.ProofsFloat.tsvd_transform_stack_gen FOps)].
+Qed.
+
+(* the same for every number type the model is instantiated at *)
+Theorem C14_transform_row_independent_generic : forall (T : Type) (K : Ops T),
+  (forall (st : C14.Model.pca_st T) (A B AB TA TB : C03.Model.dm T),
+     C03.Model.v_stack K A B = Some AB ->
+     C14.Model.pca_transform K st A = Some TA -> C14.Model.pca_transform K st B = Some TB ->
+     exists TAB, C14.Model.pca_transform K st AB = Some TAB /\ C03.Model.v_stack K TA TB = Some TAB) /\
+  (forall (C A B AB TA TB : C03.Model.dm T),
+     C03.Model.v_stack K A B = Some AB ->
+     C14.Model.tsvd_transform K C A = Some TA -> C14.Model.tsvd_transform K C B = Some TB ->
+     exists TAB, C14.Model.tsvd_transform K C AB = Some TAB /\ C03.Model.v_stack K TA TB = Some TAB).
+Proof.
+  intros T K. split; [exact (C14.ProofsFloat.pca_transform_stack_gen K) | exact (C14.ProofsFloat.tsvd_transform_stack_gen K)].
+Qed.
+
+(* sharper form: row r of the output is a function of row r of the input alone — two inputs that agree on a
+   row (standing at any two positions r, r') produce the same output row, whatever their other rows are *)
+Theorem C14_transform_row_function_of_row : forall (T : Type) (K : Ops T),
+  (forall (st : C14.Model.pca_st T) (X X' Tm Tm' : C03.Model.dm T) (r r' : nat),
+     C14.Model.pca_transform K st X = Some Tm -> C14.Model.pca_transform K st X' = Some Tm' ->
+     (r < C03.Model.nrows X)%nat -> (r' < C03.Model.nrows X')%nat ->
+     (forall i, (i < C03.Model.ncols X)%nat -> C03.Model.get K X r i = C03.Model.get K X' r' i) ->
+     forall c, (c < C03.Model.ncols (C14.Model.p_projection st))%nat ->
+       C03.Model.get K Tm r c = C03.Model.get K Tm' r' c) /\
+  (forall (C X X' Tm Tm' : C03.Model.dm T) (r r' : nat),
+     C14.Model.tsvd_transform K C X = Some Tm -> C14.Model.tsvd_transform K C X' = Some Tm' ->
+     (r < C03.Model.nrows X)%nat -> (r' < C03.Model.nrows X')%nat ->
+     (forall i, (i < C03.Model.ncols X)%nat -> C03.Model.get K X r i = C03.Model.get K X' r' i) ->
+     forall c, (c < C03.Model.ncols C)%nat -> C03.Model.get K Tm r c = C03.Model.get K Tm' r' c).
+Proof.
+  intros T K. split; [exact (C14.ProofsFloat.pca_transform_row_independent K) | exact (C14.ProofsFloat.tsvd_transform_row_independent K)].
+Qed.
+
+(* ---------------- the hypotheses are satisfiable (entries 0.1, 0.2, 0.3, 0.7, 0.6, 0.8: every operation rounds) ---- *)
+Example C14_tsvd_transform_float_instance :
+  exists Tm, C14.Model.tsvd_transform FOps C14.ProofsFloat.exf_C C14.ProofsFloat.exf_X = Some Tm /\
+    (1 < C03.Model.nrows C14.ProofsFloat.exf_X)%nat /\ (0 < C03.Model.ncols C14.ProofsFloat.exf_C)%nat /\
+    FloatError.ffin (C03.Model.get FOps Tm 1 0).
+Proof. eexists. split; [vm_compute; reflexivity|]. split; [vm_compute; lia|]. split; vm_compute; [lia | reflexivity]. Qed.
+
+(* fit (SVD path, a factorisation returning a rotation with entries 0.6 / 0.8) then transform, at binary64 *)
+Example C14_pca_transform_float_instance :
+  exists st Tm,
+    C14.Model.pca_fit FOps C14.ProofsFloat.exf_svd C14.ProofsFloat.exf_evd C14.ProofsFloat.exf_data 2 false = Some st /\
+    C14.Model.pca_transform FOps st C14.ProofsFloat.exf_X = Some Tm /\
+    (1 < C03.Model.nrows C14.ProofsFloat.exf_X)%nat /\ (1 < 2)%nat /\
+    (1 < C03.Model.ncols (C14.Model.p_projection st))%nat /\
+    FloatError.ffin (nth 1 (C14.Model.p_pmu st) 0%float) /\
+    FloatError.ffin (C03.Model.get FOps Tm 1 1).
+Proof.
+  eexists. eexists. split; [vm_compute; reflexivity|]. split; [vm_compute; reflexivity|].
+  split; [vm_compute; lia|]. split; [lia|]. split; [vm_compute; lia|]. split; vm_compute; reflexivity.
+Qed.
+
+(* stacking exf_X on top of the single row exf_Y: all three transforms exist (PCA and truncated SVD) *)
+Example C14_transform_row_independent_float_instance :
+  exists st AB TA TB TA' TB',
+    C14.Model.pca_fit FOps C14.ProofsFloat.exf_svd C14.ProofsFloat.exf_evd C14.ProofsFloat.exf_data 2 false = Some st /\
+    C03.Model.v_stack FOps C14.ProofsFloat.exf_X C14.ProofsFloat.exf_Y = Some AB /\
+    C14.Model.pca_transform FOps st C14.ProofsFloat.exf_X = Some TA /\
+    C14.Model.pca_transform FOps st C14.ProofsFloat.exf_Y = Some TB /\
+    C14.Model.tsvd_transform FOps C14.ProofsFloat.exf_C C14.ProofsFloat.exf_X = Some TA' /\
+    C14.Model.tsvd_transform FOps C14.ProofsFloat.exf_C C14.ProofsFloat.exf_Y = Some TB' /\
+    (* and row 1 of exf_X is the row of exf_Y: the hypotheses of C14_transform_row_function_of_row *)
+    (forall i, (i < C03.Model.ncols C14.ProofsFloat.exf_X)%nat ->
+       C03.Model.get FOps C14.ProofsFloat.exf_X 1 i = C03.Model.get FOps C14.ProofsFloat.exf_Y 0 i).
+Proof.
+  do 6 eexists. repeat (split; [vm_compute; reflexivity|]).
+  intros i Hi. change (i < 2)%nat in Hi.
+  destruct i as [|[|i]]; [vm_compute; reflexivity | vm_compute; reflexivity | lia].
+Qed.
+
+(* Exact unit invariance of the truncated-SVD transform at binary64: if row i of the data is scaled by 2^a and
+   column c of the components by 2^b as REAL numbers (the scaling rounded nothing), no exact product
+   x_ij C_jc underflows before or after (each is zero, or it and its scaled value are at least 2^-1022 in
+   magnitude) and both computed entries are finite (no overflow), the computed entries differ by exactly the
+   factor 2^(a+b): same significand, for every sign pattern and every amount of cancellation.
+   (PCA::transform subtracts a stored pmu and is not covered; nor is the effect of the unit on FIT.) *)
+Theorem C14_tsvd_transform_scale_pow2_exact : forall (a b : Z) (C C' X X' Tm Tm' : C03.Model.dm PrimFloat.float) (i c : nat),
+  C14.Model.tsvd_transform FOps C X = Some Tm -> C14.Model.tsvd_transform FOps C' X' = Some Tm' ->
+  C03.Model.ncols X' = C03.Model.ncols X ->
+  (i < C03.Model.nrows X)%nat -> (i < C03.Model.nrows X')%nat ->
+  (c < C03.Model.ncols C)%nat -> (c < C03.Model.ncols C')%nat ->
+  FloatError.ffin (C03.Model.get FOps Tm i c) -> FloatError.ffin (C03.Model.get FOps Tm' i c) ->
+  (forall j, (j < C03.Model.ncols X)%nat ->
+     FloatError.FR (C03.Model.get FOps X' i j) = FloatError.FR (C03.Model.get FOps X i j) * powerRZ 2 a /\
+     FloatError.FR (C03.Model.get FOps C' j c) = FloatError.FR (C03.Model.get FOps C j c) * powerRZ 2 b /\
+     let t := FloatError.FR (C03.Model.get FOps X i j) * FloatError.FR (C03.Model.get FOps C j c) in
+     (t = 0 \/ (/ 2 ^ 1022 <= Rabs t /\ / 2 ^ 1022 <= Rabs (t * powerRZ 2 (a + b))))) ->
+  FloatError.FR (C03.Model.get FOps Tm' i c) = FloatError.FR (C03.Model.get FOps Tm i c) * powerRZ 2 (a + b).
+Proof. exact C14.ProofsFloat.tsvd_transform_scale_pow2_exact. Qed.
+
+(* data rows (3,5), (1,2), component (2,7); data times 2^1, component times 2^2: all hypotheses hold for entry (0,0) *)
+Example C14_tsvd_transform_scale_instance :
+  let X := C14.ProofsFloat.exs_X in let X' := C14.ProofsFloat.exs_X' in
+  let C := C14.ProofsFloat.exs_C in let C' := C14.ProofsFloat.exs_C' in
+  exists Tm Tm', C14.Model.tsvd_transform FOps C X = Some Tm /\ C14.Model.tsvd_transform FOps C' X' = Some Tm' /\
+    C03.Model.ncols X' = C03.Model.ncols X /\
+    (0 < C03.Model.nrows X)%nat /\ (0 < C03.Model.nrows X')%nat /\
+    (0 < C03.Model.ncols C)%nat /\ (0 < C03.Model.ncols C')%nat /\
+    FloatError.ffin (C03.Model.get FOps Tm 0 0) /\ FloatError.ffin (C03.Model.get FOps Tm' 0 0) /\
+    (forall j, (j < C03.Model.ncols X)%nat ->
+       FloatError.FR (C03.Model.get FOps X' 0 j) = FloatError.FR (C03.Model.get FOps X 0 j) * powerRZ 2 1 /\
+       FloatError.FR (C03.Model.get FOps C' j 0) = FloatError.FR (C03.Model.get FOps C j 0) * powerRZ 2 2 /\
+       let t := FloatError.FR (C03.Model.get FOps X 0 j) * FloatError.FR (C03.Model.get FOps C j 0) in
+       (t = 0 \/ (/ 2 ^ 1022 <= Rabs t /\ / 2 ^ 1022 <= Rabs (t * powerRZ 2 (1 + 2))))).
+Proof. exact C14.ProofsFloat.ex_tsvd_scale. Qed.
